@@ -822,8 +822,17 @@ fn unit_parts(u: &anything::Compound) -> Vec<UnitPart> {
     entries
         .into_iter()
         .map(|(unit, power, prefix)| {
-            let single = anything::Compound::from_iter([(unit, (power.abs(), prefix))]);
-            UnitPart { numerator: power >= 0, singular: single.display(false).to_string(), plural: single.display(true).to_string() }
+            // the name comes from the library (the unit to the first power); the exponent is written
+            // here, digit by digit, so that the rendering of powers is not taken on trust either
+            let first = anything::Compound::from_iter([(unit, (1, prefix))]);
+            let sup = |n: i32| -> String {
+                if n == 1 {
+                    return String::new();
+                }
+                n.to_string().chars().map(|c| match c { '0' => '⁰', '1' => '¹', '2' => '²', '3' => '³', '4' => '⁴', '5' => '⁵', '6' => '⁶', '7' => '⁷', '8' => '⁸', '9' => '⁹', '-' => '⁻', o => o }).collect()
+            };
+            let p = power.abs();
+            UnitPart { numerator: power >= 0, singular: format!("{}{}", first.display(false), sup(p)), plural: format!("{}{}", first.display(true), sup(p)) }
         })
         .collect()
 }
